@@ -492,16 +492,23 @@ func TestVerifC20Hist(t *testing.T) {
 	if c20ReplayIfAsked(env) {
 		return
 	}
-	c20SectionsPart(env)
+	// cheapest first, so that a short time budget (loaded machine) cuts only the tail of the largest part
 	parts := c20HistParts(env)
-	for _, name := range mc.SortedKeys(parts) {
+	run := func(name string) {
 		if !c20Only(name) {
-			continue
+			return
 		}
 		b := parts[name]()
 		b.Run()
 		env.Emit(b.Res)
 	}
+	for _, name := range mc.SortedKeys(parts) {
+		if name != "hist-cross" {
+			run(name)
+		}
+	}
+	c20SectionsPart(env)
+	run("hist-cross")
 }
 
 // ---------------------------------------------------------------------------------------------------------------
